@@ -38,6 +38,24 @@ def compute_function_sort(entry_1: ComputeEntry, entry_2: ComputeEntry) -> int:
 
 
 
+def _decode_length(schc_packet: Buffer) -> Tuple[int, int]:
+    '''
+    Decode the residue length encoded at the beginning of `schc_packet`
+    following section 7.4.2 of [1]: returns (residue length, encoded length size), both in bits.
+    '''
+    length_buffer: Buffer = schc_packet[0:4].pad(padding=Padding.LEFT, inplace=False)
+    encoded_length_value: int = int.from_bytes(length_buffer.content, 'big')
+    if encoded_length_value < 15:
+        return encoded_length_value, 4
+    length_buffer = schc_packet[4:12].pad(padding=Padding.LEFT, inplace=False)
+    encoded_length_value = int.from_bytes(length_buffer.content, 'big')
+    if encoded_length_value < 255:
+        return encoded_length_value, 12
+    length_buffer = schc_packet[12:28].pad(padding=Padding.LEFT, inplace=False)
+    encoded_length_value = int.from_bytes(length_buffer.content, 'big')
+    return encoded_length_value, 28
+
+
 def decompress(schc_packet: Buffer, rule_descriptor: RuleDescriptor, unparser: PacketParser=None) -> Buffer:
     """
         Decompress the packet fields following the rule's compression actions.
@@ -61,11 +79,17 @@ def decompress(schc_packet: Buffer, rule_descriptor: RuleDescriptor, unparser: P
             decompressed_field += rf.target_value
         elif rf.compression_decompression_action == CDA.LSB:
             assert isinstance(rf.target_value, Buffer)
-            lsb_bitlength: int = rf.length-rf.target_value.length
-            field_residue = schc_packet[:lsb_bitlength]
+            if rf.length != 0:
+                lsb_bitlength: int = rf.length-rf.target_value.length
+                field_residue = schc_packet[:lsb_bitlength]
+                residue_bitlength = lsb_bitlength
+            else:
+                # variable field: the residue is preceded by its encoded length
+                lsb_bitlength, prefix_bitlength = _decode_length(schc_packet)
+                field_residue = schc_packet[prefix_bitlength:prefix_bitlength+lsb_bitlength]
+                residue_bitlength = prefix_bitlength + lsb_bitlength
             decompressed_field += rf.target_value
             decompressed_field += field_residue
-            residue_bitlength = lsb_bitlength
         elif rf.compression_decompression_action == CDA.MAPPING_SENT:
             assert isinstance(rf.target_value, MatchMapping)
             for key, value in rf.target_value.reverse.items():
